@@ -259,6 +259,8 @@ package codecs
 //@   loop 0: invariant units_fresh [C14,C09]: fresh(units) && len(units) >= 0 && p.mightNeedDONL == old(p.mightNeedDONL)
 //@   loop 0: invariant first_kept [C14,C09]: !p.mightNeedDONL ==> int(firstUnit.nalUnitSize) == be16(old(payload), 2) && sameobj(firstUnit.nalUnit, old(payload)) && off(firstUnit.nalUnit) == off(old(payload)) + 4 && len(firstUnit.nalUnit) == be16(old(payload), 2)
 //@   loop 0: invariant first_donl_kept [C14,C09]: p.mightNeedDONL ==> firstUnit.donl != nil && fresh(firstUnit.donl) && int(*firstUnit.donl) == be16(old(payload), 2) && int(firstUnit.nalUnitSize) == be16(old(payload), 4) && sameobj(firstUnit.nalUnit, old(payload)) && off(firstUnit.nalUnit) == off(old(payload)) + 6 && len(firstUnit.nalUnit) == be16(old(payload), 4)
+//@   loop 0: invariant dond_own [C14]: p.mightNeedDONL ==> (forall a :: 0 <= a && a < len(units) ==> units[a].dond != nil && fresh(units[a].dond)) && (forall a, b :: 0 <= a && a < b && b < len(units) ==> !sameobj(units[a].dond, units[b].dond))
+//@   ensures dond_own [C14]: err == nil && old(p.mightNeedDONL) ==> forall a, b :: 0 <= a && a < b && b < len(p.otherUnits) ==> p.otherUnits[a].dond != nil && p.otherUnits[b].dond != nil && !sameobj(p.otherUnits[a].dond, p.otherUnits[b].dond)
 //@   ensures nilp [C14,C09]: payload == nil ==> errIs(err, errNilPacket)
 //@   ensures short [C14,C09]: payload != nil && len(payload) <= 2 ==> errIs(err, errShortPacket)
 //@   ensures wrongtype [C14]: h265Hdr(payload) && h265Type(payload) != 48 ==> errIs(err, errInvalidH265PacketType)
